@@ -478,10 +478,10 @@ fn nontrivial(v: &J, layout: Layout) -> bool {
 
 const RAND_BLOCK: u64 = 10_000;
 fn cases(tier: Tier) -> u64 {
-    tier.pick(200_000, 4_000_000)
+    tier.pick(600_000, 4_000_000)
 }
 fn chain_cases(tier: Tier) -> u64 {
-    tier.pick(4_000, 60_000)
+    tier.pick(12_000, 60_000)
 }
 
 pub type Case = (J, usize, Vec<u8>);
